@@ -146,7 +146,7 @@ def reader_jobs(ctx, behs, tag, quick):
         lines = b["lines"]
         has_dir = any(l["k"] in ("origin", "ttl", "gen", "bad") for l in lines)
         combos = []
-        for j in range(2 if quick else 3):
+        for j in range(2):
             k = i * 7 + j * 5
             rel = bool((i + j) % 2)
             api = ["text", "text", "file", "path", "rrsets"][k % 5]
@@ -189,7 +189,7 @@ def run(ctx):
     quick = ctx.tier == "quick"
     ctx.rule = ("behaviours = (a) spellings of a zone, (b) arbitrary abstract line sequences, (c) (zone, style vector) pairs, all "
                 "enumerated by TLC from Gen_ZoneFile (exhaustive small universes + seeded -simulate); each run on the real "
-                "reader/writer for 2 (quick) or 3 (thorough) of the zone-class x relativize x API configurations; distinct = "
+                "reader/writer for 2 of the zone-class x relativize x API configurations; distinct = "
                 "distinct (behaviour, configuration); non-trivial = contains at least one record line / one non-default knob")
     ctx.assumptions += ["TLC and CommunityModules Json are correct",
                         "driver printer/lexer/projection (drivers/c09_zonefile.py) are faithful",
@@ -208,13 +208,13 @@ def run(ctx):
         tasks = {
             # ---- the round-trip theorems on the specification
             "mc_write": lambda: ctx.model("MC_ZoneFile", mc_cfg(ctx, "mc_write.cfg", zones="ZonesQuick" if quick else "ZonesThorough"),
-                                          workers=1 if quick else 8),
+                                          workers=1 if quick else 8, heap="4g"),
             "mc_spell": lambda: ctx.model("MC_ZoneFile", mc_cfg(ctx, "mc_spell.cfg", modes=tset(["spell"]), maxextra=2 if quick else 3,
                                                                zones="ZonesSpellQuick" if quick else "ZonesSpellThorough"),
                                           workers=1 if quick else 8),
             # ---- behaviours
             # S1: every single-record zone, every spelling with <= 2 non-canonical features
-            "s1": lambda: ctx.generate("Gen_ZoneFile", gen_cfg(ctx, "s1.cfg", zones="GZSingles" if quick else "GZSinglesAll", maxdev=2)),
+            "s1": lambda: ctx.generate("Gen_ZoneFile", gen_cfg(ctx, "s1.cfg", zones="GZSingles" if quick else "GZSinglesT", maxdev=2)),
             # S2: one directive / noise line anywhere, owner / TTL / name inheritance forms
             "s2": lambda: ctx.generate("Gen_ZoneFile", gen_cfg(ctx, "s2.cfg", zones="GZSmall", maxextra=1 if quick else 2, maxdev=9,
                                                               profiles="PInherit", og=tset([True, False]))),
@@ -228,14 +228,14 @@ def run(ctx):
             "r3": lambda: ctx.generate("Gen_ZoneFile", gen_cfg(ctx, "r3.cfg", kinds=tset(["read"]), lines="RLinesFull", depth=6,
                                                               og=tset([True, False])),
                                        simulate="num=%d" % n, depth=9, seed=ctx.seed + 2, deadlock=False, limit=n),
-            "w1": lambda: ctx.generate("Gen_ZoneFile", gen_cfg(ctx, "w1.cfg", kinds=tset(["write"]), zones="GZCur",
+            "w1": lambda: ctx.generate("Gen_ZoneFile", gen_cfg(ctx, "w1.cfg", kinds=tset(["write"]), zones="GZCur" if quick else "GZW1Thorough",
                                                               styles="PairwiseStyles" if quick else "AllStyles")),
             "w2": lambda: ctx.generate("Gen_ZoneFile", gen_cfg(ctx, "w2.cfg", kinds=tset(["write"]), zones="GZSingles",
                                                               styles="SingleKnobStyles" if quick else "PairwiseStyles")),
             # W4: zone objects that also hold EMPTY rdatasets (first / middle / last of a node) and nodes made of
             #     empty rdatasets only; they hold no record, the round trip is on records
             "w4": lambda: ctx.generate("Gen_ZoneFile", gen_cfg(
-                ctx, "w4.cfg", kinds=tset(["write"]), zones="GZEmpties", styles="PairwiseStyles" if quick else "AllStyles",
+                ctx, "w4.cfg", kinds=tset(["write"]), zones="GZEmpties", styles="PairwiseStyles" if quick else "EmptiesStylesThorough",
                 empties=tset(["first", "mid", "last", "firstlast", "nodes"]))),
             # R4: a CNAME against every type family at one owner, every order
             "r4": lambda: ctx.generate("Gen_ZoneFile", gen_cfg(ctx, "r4.cfg", kinds=tset(["read"]), lines="RLinesCname",
